@@ -86,3 +86,161 @@ Proof.
   - apply h_read_last. exact Lb.
   - rewrite (h_read_frame heap1 _ (x, o, l, c)) by (unfold heap1; rewrite app_length; cbn; lia). exact F1.
 Qed.
+
+(* ---- nest ---- *)
+Lemma h_write_fresh {A} (zero : A) (vals : list A) k : h_write (repeat zero (length vals + k)) 0 vals = vals ++ repeat zero k.
+Proof.
+  unfold h_write. cbn [firstn app Nat.add]. f_equal. rewrite repeat_app, skipn_app, repeat_length, Nat.sub_diag.
+  rewrite skipn_all2 by (rewrite repeat_length; lia). reflexivity.
+Qed.
+Lemma h_write_end {A} (pre vals : list A) (zero : A) : h_write (pre ++ repeat zero (length vals)) (length pre) vals = pre ++ vals.
+Proof.
+  unfold h_write. rewrite firstn_app, Nat.sub_diag, firstn_all2 by lia. cbn [firstn]. rewrite app_nil_r. f_equal.
+  rewrite skipn_all2 by (rewrite app_length, repeat_length; lia). apply app_nil_r.
+Qed.
+
+(* one round: an op that holds attributes puts them and the fields into ONE new array; a group wraps the fields
+   into a new one-cell array (or leaves empty fields alone); nothing that existed is written to *)
+Lemma nest_step_spec zero gc grp g a f h : h_ok h a = true -> h_ok h f = true ->
+  exists res cells,
+    nest_step zero gc grp (g, a) f h = Some (res, if (bytes_eqb g [] || (0 <? h_len f)) then h ++ [cells] else h)
+    /\ (if (bytes_eqb g [] || (0 <? h_len f)) then res = (length h, 0%nat, length cells, length cells) else res = f)
+    /\ cells = nest_op grp (g, h_read h a) (h_read h f).
+Proof.
+  intros Ha Hf. destruct a as [[[aa ao] al] ac]. destruct f as [[[fa fo] fl] fc].
+  pose proof (h_read_len h aa ao al ac Ha) as La. pose proof (h_read_len h fa fo fl fc Hf) as Lf.
+  assert (Haa : (aa < length h)%nat) by (unfold h_ok in Ha; lia).
+  assert (Hfa : (fa < length h)%nat) by (unfold h_ok in Hf; lia).
+  unfold nest_step, nest_op. cbn [fst snd].
+  destruct (bytes_eqb g []) eqn:Eg; cbn [orb].
+  - assert (g = []) by (destruct g; [reflexivity|discriminate]). subst g.
+    exists (length h, 0%nat, (al + fl)%nat, (al + fl)%nat), (h_read h (aa, ao, al, ac) ++ h_read h (fa, fo, fl, fc)).
+    unfold h_make_cap, h_len. replace ((0 <? 0) || (Z.of_nat al + Z.of_nat fl <? 0)) with false by lia.
+    replace (Z.to_nat (Z.of_nat al + Z.of_nat fl)) with (al + fl)%nat by lia. change (Z.to_nat 0) with 0%nat.
+    rewrite (h_read_frame h _ (aa, ao, al, ac)) by exact Haa.
+    set (va := h_read h (aa, ao, al, ac)) in *. set (vf := h_read h (fa, fo, fl, fc)) in *.
+    unfold h_append_all. rewrite La. replace (0 + al <=? al + fl)%nat with true by lia. cbv beta iota zeta.
+    rewrite nth_app_len, replace_nth_app_len. cbn [Nat.add].
+    rewrite (h_read_frame h _ (fa, fo, fl, fc)) by exact Hfa. fold vf.
+    rewrite Lf. replace (al + fl <=? al + fl)%nat with true by lia. cbv beta iota zeta.
+    rewrite nth_app_len, replace_nth_app_len.
+    replace (repeat zero (al + fl)) with (repeat zero (length va + fl)) by (rewrite La; reflexivity).
+    rewrite h_write_fresh.
+    replace (repeat zero fl) with (repeat zero (length vf)) by (rewrite Lf; reflexivity).
+    rewrite <- La. rewrite h_write_end. rewrite app_length, Lf. repeat split; reflexivity.
+  - destruct g as [|c g]; [discriminate|]. unfold h_len. destruct (0 <? Z.of_nat fl) eqn:El.
+    + exists (length h, 0%nat, 1%nat, 1%nat), [grp (c :: g) (h_read h (fa, fo, fl, fc))].
+      unfold h_lit. cbn [length]. repeat split.
+      destruct (h_read h (fa, fo, fl, fc)) eqn:R; [cbn in Lf; lia|reflexivity].
+    + exists (fa, fo, fl, fc), []. repeat split.
+      assert (fl = 0%nat) by lia. subst fl. destruct (h_read h (fa, fo, 0%nat, fc)) eqn:R; [reflexivity|cbn in Lf; lia].
+Qed.
+
+Lemma h_read_ext {A} (h0 extra : heap A) (t : hslice) : (let '(a, _, _, _) := t in (a < length h0)%nat) ->
+  h_read (h0 ++ extra) t = h_read h0 t.
+Proof. destruct t as [[[a o] l] c]. intros H. unfold h_read. rewrite app_nth1 by exact H. reflexivity. Qed.
+Lemma h_ok_ext {A} (h0 extra : heap A) (t : hslice) : h_ok h0 t = true -> h_ok (h0 ++ extra) t = true.
+Proof.
+  destruct t as [[[a o] l] c]. unfold h_ok. intros H. rewrite app_length, app_nth1 by lia. lia.
+Qed.
+
+Section NestLoop.
+Variables (zero : acell) (gc : nat -> nat) (grp : bytes -> list acell -> acell).
+Variable ops : list (bytes * hslice).
+Variable h0 : heap acell.
+Hypothesis ops_ok : forall op, In op ops -> h_ok h0 (snd op) = true.
+Variable F : hslice * Z * heap acell -> loop_step (hslice * Z * heap acell).
+Hypothesis F_done : forall f h, F (f, -1, h) = LoopDone (f, -1, h).
+Hypothesis F_step : forall f j h op, nth_error ops j = Some op ->
+  F (f, Z.of_nat j, h) = match nest_step zero gc grp op f h with
+                         | Some (f', h') => LoopNext (f', Z.of_nat j - 1, h')
+                         | None => LoopPanic
+                         end.
+
+Definition contents (l : list (bytes * hslice)) : list (bytes * list acell) := map (fun op => (fst op, h_read h0 (snd op))) l.
+
+Lemma nest_loop : forall k f extra fuel, (k <= length ops)%nat -> h_ok (h0 ++ extra) f = true -> (k < fuel)%nat ->
+  exists res extra1,
+    go_loop fuel F (f, Z.of_nat k - 1, h0 ++ extra) = Some (res, -1, h0 ++ extra1)
+    /\ h_ok (h0 ++ extra1) res = true
+    /\ h_read (h0 ++ extra1) res = nest_cells grp (contents (firstn k ops)) (h_read (h0 ++ extra) f)
+    /\ (res = f \/ (let '(a, _, _, _) := res in (length (h0 ++ extra) <= a)%nat)).
+Proof.
+  induction k as [|k IH]; intros f extra fuel Hk Hf Hfuel.
+  - destruct fuel as [|fuel]; [lia|]. cbn [go_loop Z.of_nat Z.sub Z.opp Z.add]. rewrite F_done.
+    exists f, extra. repeat split; [exact Hf|left; reflexivity].
+  - destruct fuel as [|fuel]; [lia|]. cbn [go_loop].
+    replace (Z.of_nat (S k) - 1) with (Z.of_nat k) by lia.
+    destruct (nth_error ops k) as [[g a]|] eqn:En; [|apply nth_error_None in En; lia].
+    rewrite (F_step f k _ _ En).
+    assert (Ha0 : h_ok h0 a = true) by (apply (ops_ok (g, a)); eapply nth_error_In; exact En).
+    assert (Ha : h_ok (h0 ++ extra) a = true) by (apply h_ok_ext; exact Ha0).
+    destruct (nest_step_spec zero gc grp g a f (h0 ++ extra) Ha Hf) as (f' & cells & Hs & Hres & Hc).
+    rewrite Hs. cbv beta iota.
+    assert (Hfirst : firstn (S k) ops = firstn k ops ++ [(g, a)]).
+    { clear -En. revert ops En. induction k as [|k IH]; intros [|x l] E; cbn in *; try discriminate.
+      - inversion E. reflexivity.
+      - f_equal. apply IH. exact E. }
+    assert (Hra : h_read (h0 ++ extra) a = h_read h0 a).
+    { apply h_read_ext. destruct a as [[[aa ao] al] ac]. unfold h_ok in Ha0. lia. }
+    destruct (bytes_eqb g [] || (0 <? h_len f)) eqn:Eb.
+    + subst f'.
+      assert (Hok' : h_ok ((h0 ++ (extra ++ [cells]))) (length (h0 ++ extra), 0%nat, length cells, length cells) = true).
+      { rewrite app_assoc. unfold h_ok. rewrite nth_app_len. rewrite (app_length (h0 ++ extra) [cells]). cbn [length]. lia. }
+      destruct (IH (length (h0 ++ extra), 0%nat, length cells, length cells) (extra ++ [cells]) fuel) as (res & extra1 & G & Hok1 & Hr & Hal);
+        [lia|exact Hok'|lia|].
+      rewrite <- app_assoc. exists res, extra1. split; [exact G|]. split; [exact Hok1|]. split.
+      * rewrite Hr. rewrite app_assoc, h_read_last by reflexivity. rewrite Hfirst. unfold contents, nest_cells.
+        rewrite map_app, fold_right_app. cbn [map fold_right fst snd]. rewrite Hc, Hra. reflexivity.
+      * right. destruct Hal as [->|Hal]; [lia|]. destruct res as [[[ra ro] rl] rc]. rewrite app_assoc, app_length in Hal. lia.
+    + subst f'.
+      destruct (IH f extra fuel) as (res & extra1 & G & Hok1 & Hr & Hal); [lia|exact Hf|lia|].
+      exists res, extra1. split; [exact G|]. split; [exact Hok1|]. split; [|exact Hal].
+      rewrite Hr, Hfirst. unfold contents, nest_cells. rewrite map_app, fold_right_app. cbn [map fold_right fst snd].
+      rewrite <- Hra, <- Hc.
+      (* nothing was added: the op is a group and the fields are empty *)
+      apply orb_false_elim in Eb. destruct Eb as [Eg El].
+      assert (Hempty : h_read (h0 ++ extra) f = []).
+      { destruct f as [[[fa fo] fl] fc]. pose proof (h_read_len _ fa fo fl fc Hf) as L. unfold h_len in El.
+        destruct (h_read (h0 ++ extra) (fa, fo, fl, fc)); [reflexivity|cbn in L; lia]. }
+      rewrite Hc, Hempty. unfold nest_op. cbn [fst snd]. destruct g; [discriminate|reflexivity].
+Qed.
+End NestLoop.
+
+Lemma list_at_nat {A} (l : list A) j : list_at l (Z.of_nat j) = nth_error l j.
+Proof. unfold list_at. destruct (Z.of_nat j <? 0) eqn:E; [lia|]. rewrite Nat2Z.id. reflexivity. Qed.
+
+(* nest as it is in the source: no array that existed is written to (the heap only grows), the result holds the
+   model's attributes, and it is either the caller's own slice or lies in an array allocated by this call - so it
+   shares nothing with the attributes stored in the handler *)
+Lemma gen_handler_nest : forall zero gc grp ops fields h0,
+  (forall op, In op ops -> h_ok h0 (snd op) = true) -> h_ok h0 fields = true ->
+  exists res extra,
+    Handlers.handler_nest zero gc grp ops fields h0 = Some (res, h0 ++ extra)
+    /\ h_read (h0 ++ extra) res = nest_cells grp (map (fun op => (fst op, h_read h0 (snd op))) ops) (h_read h0 fields)
+    /\ (res = fields \/ (let '(a, _, _, _) := res in (length h0 <= a)%nat)).
+Proof.
+  intros zero gc grp ops fields h0 Hops Hf.
+  lazymatch eval cbv delta [Handlers.handler_nest] in Handlers.handler_nest with
+  | handler_nest_ref =>
+      unfold Handlers.handler_nest, handler_nest_ref; destruct ops as [|op ops'];
+      [ exists fields, []; rewrite app_nil_r; repeat split; left; reflexivity
+      | eexists; eexists; unfold h_lit; split; [reflexivity|]; split;
+        [ apply h_read_last; reflexivity | right; lia ] ]
+  | _ =>
+      unfold Handlers.handler_nest; cbv zeta;
+      match goal with |- context [go_loop ?fl ?F ?st] =>
+        remember (go_loop fl F st) as gl eqn:Egl;
+        destruct (nest_loop zero gc grp ops h0 Hops F) with (k := length ops) (f := fields) (extra := @nil (list acell)) (fuel := fl)
+          as (res & extra1 & G & _ & Hr & Hal);
+        [ intros; cbv beta iota zeta; reflexivity
+        | intros f j h op En; cbv beta iota zeta; replace (0 <=? Z.of_nat j) with true by lia;
+          rewrite list_at_nat, En; unfold nest_step; cbv beta iota zeta;
+          repeat (gen_split; gen_inj; try reflexivity; try discriminate; try congruence)
+        | lia | rewrite app_nil_r; exact Hf | lia | ];
+        rewrite app_nil_r in G, Hr, Hal;
+        assert (Hgl : gl = Some (res, -1, h0 ++ extra1)) by (rewrite Egl; exact G);
+        rewrite Hgl end;
+      exists res, extra1; rewrite firstn_all in Hr; repeat split; [exact Hr|exact Hal]
+  end.
+Qed.
